@@ -10,6 +10,10 @@ REPLAY  every sequence concretised (several spellings per token, mismatched END 
 HOSTILE structured pools: hostile TZIDs, malformed VTIMEZONEs, deep nesting, END:VTIMEZONE on
         non-timezones, duplicated singletons, truncated lines.
 FUZZ    mutated fixtures and token soup (seeded); outcome class and CPU budget per case.
+LINES   with the guarded hooks of icalendar/_verif.py every real parse of the fixtures and hostile cases
+        emits one event per consumed line; spec/Trace_ParserLines classifies the raw line with the
+        mirror of Contentline.parts and requires the automaton to take exactly the logged step
+        (action, stack depth, finished components).
 VALIDATE spec/Trace_Parser: outcome in {result, ValueError}, budget -- evaluated by TLC.
 """
 import glob
@@ -109,6 +113,12 @@ def hostile_cases(rnd):
     cases.append(("period-mixed-ev", "BEGIN:VEVENT\r\nRDATE;VALUE=PERIOD:20240101/20240102T000000\r\nRDATE;VALUE=PERIOD:20240101T000000/20240102\r\nEND:VEVENT\r\n"))
     cases.append(("period-reversed", "BEGIN:VEVENT\r\nRDATE;VALUE=PERIOD:20240103T000000/20240102T000000\r\nEND:VEVENT\r\n"))
     cases.append(("rrule-odd", "BEGIN:VEVENT\r\nRRULE:FREQ=DAILY;UNTIL=garbage\r\nRRULE:FREQ=DAILY;BYDAY=\r\nRRULE:=;=\r\nRRULE:FREQ\r\nEND:VEVENT\r\n"))
+    for stamp in ("00010101T000000", "99991231T235959", "00010101T000000Z", "99991231T235959Z"):
+        for tz in ("Europe/Berlin", "Pacific/Kiritimati", "America/Adak", "UTC"):
+            cases.append(("extreme-date", f"BEGIN:VEVENT\r\nDTSTART;TZID={tz}:{stamp}\r\nEND:VEVENT\r\n"))
+            cases.append(("extreme-date-strict", f"BEGIN:VTODO\r\nDUE;TZID={tz}:{stamp}\r\nRDATE;TZID={tz}:{stamp},{stamp}\r\nEND:VTODO\r\n"))
+    cases.append(("tzid-list", "BEGIN:VEVENT\r\nDTSTART;TZID=Europe/Berlin,Europe/Paris:20240101T100000\r\nEND:VEVENT\r\n"))
+    cases.append(("tzid-list-strict", "BEGIN:VTODO\r\nDUE;TZID=a,b:20240101T100000\r\nEND:VTODO\r\n"))
     cases.append(("rrule-until-time", "BEGIN:VEVENT\r\nRRULE:FREQ=WEEKLY;UNTIL=2010000\r\nRRULE:FREQ=DAILY;UNTIL=120000Z\r\nEND:VEVENT\r\n"))
     cases.append(("rrule-todo", "BEGIN:VTODO\r\nRRULE:FREQ=DAILY;COUNT=x\r\nEND:VTODO\r\n"))
     cases.append(("rrule-ok-roundtrip", "BEGIN:VTODO\r\nRRULE:FREQ=DAILY;UNTIL=20240101T000000Z;BYDAY=MO,-1TU;BYMONTH=5L\r\nEXRULE:FREQ=WEEKLY\r\nEND:VTODO\r\n"))
@@ -228,6 +238,50 @@ def run(ctx: Ctx):
                 ctx.case(("fuzz", data, multiple, prov), True)
     finally:
         tzp.use_default()
+    # ------------------------------------------------------------- hooks: per-line events of real parses (code -> spec)
+    from icalendar import _verif
+    if not getattr(_verif, "ENABLED", False):
+        raise Machinery("icalendar._verif hooks are not enabled (ICALENDAR_VERIF=1 must be set before import)")
+    lev, lmeta = [], []
+    sink = []
+    _verif.set_sink(sink.append)
+    try:
+        inputs = [(os.path.basename(f), d) for f, d in zip(fixtures, raw) if len(d) < (6000 if ctx.quick else 40000)]
+        inputs += [(tag, t.encode("utf-8")) for tag, t in hostile_cases(rnd)][:: (3 if ctx.quick else 1)]
+        for tag, data in inputs:
+            for multiple in (True, False):
+                del sink[:]
+                r = pc.real_parse(data, multiple)
+                if r[0] == "exc":
+                    continue            # reported by the outcome clauses above
+                lev.append({"ev": "start"})
+                lmeta.append({"input": tag, "multiple": multiple})
+                for e in sink:
+                    lev.append({"ev": e["ev"], "line": [ord(c) for c in e["line"]], "depth": e["depth"], "comps": e["comps"]})
+                    lmeta.append({"input": tag, "multiple": multiple, "line": e["line"][:120], "seq": e["seq"]})
+                lev.append({"ev": "finish", "outcome": "ok" if r[0] == "ok" else "err",
+                            "ncomps": len(r[1]) if (r[0] == "ok" and multiple) else -1})
+                lmeta.append({"input": tag, "multiple": multiple})
+                ctx.case(("lines", tag, multiple), True)
+    finally:
+        _verif.set_sink(None)
+    ctx.notes.append(f"hook events validated against the automaton: {len(lev)}")
+    # one TLC run per group of whole parses (the automaton state must not be cut at a chunk boundary)
+    start = 0
+    bounds = [i for i, e in enumerate(lev) if e["ev"] == "start"] + [len(lev)]
+    group_start = 0
+    for b in bounds[1:]:
+        if b - group_start >= 3000 or b == len(lev):
+            part = lev[group_start:b]
+            for idx, clause, known in ctx.validate_trace("Trace_ParserLines", part, cfg_text(spec="Spec"), chunk=10 ** 9, timeout=3000,
+                                                         name=f"lines{group_start}"):
+                gi = group_start + idx
+                if clause.startswith("M:"):
+                    ctx.drifted(clause, lmeta[gi])
+                else:
+                    ctx.fail(clause, lmeta[gi], lev[gi].get("ev"), None)
+            group_start = b
+
     outs = {}
     for e in ev:
         outs[e["out"]] = outs.get(e["out"], 0) + 1
